@@ -455,7 +455,10 @@ def c10_groups(r: random.Random, n_groups: int):
                        "members": [("ts", fill(tmpl, slot, f"#[ts({a})]")), ("serde", fill(tmpl, slot, f"#[serde({a})]")),
                                    # a list may end in a comma, like every attribute list in Rust
                                    ("serde-trailing-comma", fill(tmpl, slot, f"#[serde({a},)]")),
-                                   ("ts-trailing-comma", fill(tmpl, slot, f"#[ts({a}, )]"))],
+                                   ("ts-trailing-comma", fill(tmpl, slot, f"#[ts({a}, )]")),
+                                   # the values arrive through `$v:literal` fragments of a macro_rules! macro
+                                   ("serde-literal-fragments", "//@fragments\n" + fill(tmpl, slot, f"#[serde({a})]")),
+                                   ("ts-literal-fragments", "//@fragments\n" + fill(tmpl, slot, f"#[ts({a})]"))],
                        "plain": base})
         # precedence
         if b is not None:
